@@ -5,7 +5,7 @@
    only: slot s of row i of the buffer holds cell (i, s + shift(i-1)) of the specification matrix. *)
 From Coq Require Import ZArith Bool Lia List.
 From DV Require Import Prelude Cost Grid Dtw DtwSpec DtwProps Engines CWps CFill CExpand CFillSim CLang CDistTie CDistSpec
-  CTraceSpec CWpsCanon CWpsKernel CWpsValue CWpsSpec.
+  CTraceSpec CWpsCanon CWpsCanonEu CWpsKernel CWpsValue CWpsSpec CWpsSpecEu.
 From DVGen Require Import Gen_cwps Gen_cfill Gen_cwpsk.
 Import ListNotations.
 Open Scope Z_scope.
@@ -139,3 +139,100 @@ Proof.
     rewrite wps_matrix_Mfun; [reflexivity| unfold sr; lia | unfold sc; lia].
 Qed.
 End Final.
+
+
+(* ------------------------------------------------------------------ the Euclidean twin *)
+Section FinalEu.
+Variables (window p m mld : Z) (psi : (nat * nat) * (nat * nat)).
+Hypothesis Hwin : 0 <= window.
+Local Notation uab := (c_to_u (cs_of window p m mld psi AbsDiff)).
+Variables (s1 s2 : list point) (d : nat).
+Hypothesis Hd1 : forall q, In q s1 -> length q = d.
+Hypothesis Hd2 : forall q, In q s2 -> length q = d.
+Hypothesis H1 : (1 <= length s1)%nat.
+Hypothesis H2 : (1 <= length s2)%nat.
+Hypothesis Hp1 : (psi_1b uab <= length s1)%nat.
+Hypothesis Hp2 : (psi_2b uab <= length s2)%nat.
+Local Notation l1 := (Z.of_nat (length s1)).
+Local Notation l2 := (Z.of_nat (length s2)).
+
+Lemma c_window_arg_uab : c_window_arg uab = window.
+Proof. unfold c_window_arg, c_to_u, cs_of, offz; cbn. destruct (Z.eqb_spec window 0); congruence. Qed.
+
+Lemma uab_window_ok : match u_window uab with Some w => 1 <= w | None => True end.
+Proof. unfold c_to_u, cs_of, offz; cbn. destruct (Z.eqb_spec window 0); [exact I|lia]. Qed.
+
+Lemma cell_outside_band_eu ri ci : Z.of_nat ri < l1 ->
+  ~ (blo l1 l2 window (Z.of_nat ri) <= Z.of_nat ci < bhi l1 l2 window (Z.of_nat ri)) -> cell uab s1 s2 ri ci = Inf.
+Proof.
+  intros Hri Hout. unfold cell. destruct (in_band _ _ _ ri ci) eqn:E; [|reflexivity]. exfalso. apply Hout.
+  unfold in_band in E. apply andb_true_iff in E. destruct E as [E1 E2]. apply Z.leb_le in E1. apply Z.ltb_lt in E2.
+  destruct (c_window_band uab s1 s2 (Z.of_nat ri) ltac:(unfold sr; lia) ltac:(unfold sc; lia) uab_window_ok
+              ltac:(unfold sr; lia)) as [Elo Ehi].
+  rewrite c_window_arg_uab in Elo, Ehi. unfold blo, bhi. unfold sr, sc in *. rewrite Elo, Ehi. lia.
+Qed.
+
+Lemma cell_on_band_eu ri ci : Z.of_nat ri < l1 ->
+  blo l1 l2 window (Z.of_nat ri) <= Z.of_nat ci < bhi l1 l2 window (Z.of_nat ri) ->
+  wdok l1 l2 (Z.of_nat d) (concat s1) (concat s2) (Z.of_nat ri * Z.of_nat d) (Z.of_nat ci) = true /\
+  (if cltb (adj_max_step uab) (wdfun_eu l1 l2 (Z.of_nat d) (concat s1) (concat s2) (Z.of_nat ri * Z.of_nat d) (Z.of_nat ci))
+   then Inf else wdfun_eu l1 l2 (Z.of_nat d) (concat s1) (concat s2) (Z.of_nat ri * Z.of_nat d) (Z.of_nat ci))
+  = cell uab s1 s2 ri ci.
+Proof.
+  intros Hri Hin.
+  assert (Hci : (ci < length s2)%nat).
+  { unfold bhi, band_hi in Hin. lia. }
+  pose proof (nd_acc_value s1 s2 d Hd1 Hd2 ri ci ltac:(lia) Hci) as HV. unfold nd_acc in HV.
+  unfold wdok, wdfun_eu, wdfun_sq. rewrite HV. cbn [fst snd]. split; [reflexivity|].
+  unfold cell.
+  destruct (c_window_band uab s1 s2 (Z.of_nat ri) ltac:(unfold sr; lia) ltac:(unfold sc; lia) uab_window_ok
+              ltac:(unfold sr; lia)) as [Elo Ehi].
+  rewrite c_window_arg_uab in Elo, Ehi. unfold blo, bhi in Hin. unfold sr, sc in *. rewrite Elo, Ehi in Hin.
+  assert (E : in_band (length s1) (length s2) (sw uab s1 s2) ri ci = true).
+  { unfold in_band. apply andb_true_iff. split; [apply Z.leb_le|apply Z.ltb_lt]; lia. }
+  unfold sr, sc. rewrite E. unfold cltb. change (u_inner uab) with AbsDiff. cbn [pdist].
+  change (csqrt (Fin (pdist_sq (nth ri s1 []) (nth ci s2 [])))) with (Fin (pdist_abs (nth ri s1 []) (nth ci s2 []))).
+  destruct (cleb (Fin (pdist_abs (nth ri s1 []) (nth ci s2 []))) (adj_max_step uab)); reflexivity.
+Qed.
+
+(* dtw_warping_paths_ndim_euclidean run for its value: the DTW value under the Euclidean point distance, and the
+   array holds that specification matrix (no sqrt pass in this kernel: keep_int_repr is not read) *)
+Theorem c_wps_eu_kernel_returns_the_dtw_value cub1 cub2 wps0 keep :
+  let W := cw_width l1 l2 window in
+  Z.of_nat (length wps0) = (l1 + 1) * W ->
+  exists wps',
+    c_dtw_warping_paths_ndim_euclidean (cw_shift l1 l2 window) cub1 cub2 wps0 (concat s1) l1 (concat s2) l2 true keep false (Z.of_nat d)
+      ((l1 + 1) * W) (c_parts_ldiff l1 l2) (c_parts_ldiffr l1 l2 (c_parts_ldiff l1 l2))
+      (c_parts_ldiffc l1 l2 (c_parts_ldiff l1 l2)) (c_parts_window l1 l2 window) W
+      (c_parts_ri1 l1 (c_parts_overlap_left l1 (c_parts_ldiffr l1 l2 (c_parts_ldiff l1 l2)) (c_parts_window l1 l2 window))
+                      (c_parts_overlap_right l1 (c_parts_ldiffr l1 l2 (c_parts_ldiff l1 l2)) (c_parts_window l1 l2 window)))
+      (c_parts_ri2 l1 (c_parts_overlap_left l1 (c_parts_ldiffr l1 l2 (c_parts_ldiff l1 l2)) (c_parts_window l1 l2 window)))
+      (c_parts_ri3 l1 (c_parts_overlap_left l1 (c_parts_ldiffr l1 l2 (c_parts_ldiff l1 l2)) (c_parts_window l1 l2 window))
+                      (c_parts_overlap_right l1 (c_parts_ldiffr l1 l2 (c_parts_ldiff l1 l2)) (c_parts_window l1 l2 window)))
+      (adj_max_step uab) Inf (Fin (adj_penalty uab)) false (Z.of_nat (psi_1b uab)) (Z.of_nat (psi_1e uab))
+      (Z.of_nat (psi_2b uab)) (Z.of_nat (psi_2e uab)) false
+    = (RPlain (dtw_value uab s1 s2), wps', true) /\
+    Z.of_nat (length wps') = (l1 + 1) * W /\
+    forall (i : nat) (s : Z), Z.of_nat i <= l1 -> 0 <= s < W ->
+      s + cw_shift l1 l2 window (Z.of_nat i - 1) <= l2 ->
+      (s + cw_shift l1 l2 window (Z.of_nat i - 1) = 0 -> Z.of_nat i <= cw_ri2 l1 l2 window) ->
+      aget wps' (Z.of_nat i * W + s) = mget (wps_matrix uab s1 s2) i (Z.to_nat (s + cw_shift l1 l2 window (Z.of_nat i - 1))).
+Proof.
+  intros W HL.
+  destruct (c_wps_eu_kernel_runs l1 l2 window ltac:(lia) ltac:(lia) Hwin (cell uab s1 s2) (adj_penalty uab)
+              (psi_1b uab) (psi_2b uab) cell_outside_band_eu (Z.of_nat d) (concat s1) (concat s2) (adj_max_step uab)
+              cell_on_band_eu ltac:(lia) ltac:(lia) (cw_shift l1 l2 window) cub1 cub2 wps0 true keep false
+              (Z.of_nat (psi_1e uab)) (Z.of_nat (psi_2e uab)) HL)
+    as (wD & E & HLen & Hrows).
+  pose proof (tail_value_eu l1 l2 window ltac:(lia) ltac:(lia) Hwin (cell uab s1 s2) (adj_penalty uab) (psi_1b uab) (psi_2b uab)
+              cell_outside_band_eu wD HLen Hrows (psi_1e uab) (psi_2e uab)) as ET.
+  exists wD. fold W in ET, E, HLen. rewrite E, ET. split.
+  - f_equal. f_equal. f_equal. rewrite dtw_value_Mfun. unfold end_value, ecands, end_cands, sr, sc, Mfun.
+    rewrite !Nat2Z.id. reflexivity.
+  - split; [exact HLen|]. intros i s Hi Hs Hcol Hb.
+    pose proof (Hrows i ltac:(lia)) as HH. unfold holds in HH. specialize (HH s Hs Hcol Hb).
+    unfold rowf in HH. fold W in HH. rewrite HH.
+    pose proof (shift_nonneg l1 l2 window ltac:(lia) ltac:(lia) Hwin (Z.of_nat i - 1)) as Hsh.
+    rewrite wps_matrix_Mfun; [reflexivity| unfold sr; lia | unfold sc; lia].
+Qed.
+End FinalEu.
